@@ -1,74 +1,244 @@
 /-!
-# IEEE-754 binary64 on integers (PLACEHOLDER by the lead — to be replaced by the C08 branch's
-# full `Spec.Ieee`, same names and signatures)
+# IEEE-754 binary64 / binary32 on exact integers
 
-Round-to-nearest-even of a non-negative rational to binary64 bits, and the basic operations as
-"exact result, then round once". Import-free, computable.
+Lean's `Float` is opaque to the kernel, so floats are *bit patterns* (`UInt64`, `UInt32`) with an
+exact dyadic semantics, and rounding is defined on exact naturals.
+
+Every finite binary64 value is an integer multiple of `2^-1074` (binary32: `2^-149`). With
+`P = 2^52`, a bit pattern without its sign, `u = E·P + M`, has magnitude (in units of `2^-1074`)
+
+    mag u = M                      if E = 0      (subnormal, zero)
+          = (P + M) · 2^(E-1)      if 1 ≤ E ≤ 2046
+
+and `u ↦ mag u` is strictly increasing, which is what makes "round, then add the exponent to the
+bit pattern" correct across binade and subnormal boundaries.
+
+Import-free and computable (the driver links it); the theorems are in `SJ/Proofs/Ieee.lean`.
 -/
 namespace SJ.Spec.Ieee
 
-/-- floor(log2 (num/den)) for num, den > 0 -/
-def ilog2q (num den : Nat) : Int :=
-  let e : Int := (Nat.log2 num : Int) - (Nat.log2 den : Int)
-  let ge (e : Int) : Bool := if e ≥ 0 then num ≥ den * 2 ^ e.toNat else num * 2 ^ (-e).toNat ≥ den
-  if ge e then e else e - 1
+/-! ## Round-half-even of a non-negative rational to a natural -/
 
-/-- round half to even of num/den -/
+/-- nearest natural to `num/den` (`den > 0`), ties to the even one -/
 def rne (num den : Nat) : Nat :=
   let q := num / den
   let r := num % den
-  if 2 * r < den then q else if 2 * r > den then q + 1 else if q % 2 == 0 then q else q + 1
+  if 2 * r < den then q else if den < 2 * r then q + 1 else if q % 2 = 0 then q else q + 1
 
-def signBit (neg : Bool) : UInt64 := if neg then 0x8000000000000000 else 0
+/-! ## Format-generic core on naturals -/
 
-/-- bits of the binary64 nearest to `(-1)^neg · num/den` (ties to even); `none` on overflow. -/
-def roundNE64 (neg : Bool) (num den : Nat) : Option UInt64 :=
-  if num == 0 || den == 0 then some (signBit neg) else
-  let e := ilog2q num den
-  let e' : Int := if e < -1022 then -1022 else e
-  let sh : Int := e' - 52
-  let m := if sh ≥ 0 then rne num (den * 2 ^ sh.toNat) else rne (num * 2 ^ (-sh).toNat) den
-  let (m, e') := if m == 2 ^ 53 then (2 ^ 52, e' + 1) else (m, e')
-  if e' > 1023 then none
-  else if m < 2 ^ 52 then some (signBit neg ||| UInt64.ofNat m)
-  else some (signBit neg ||| UInt64.ofNat (((e' + 1023).toNat) * 2 ^ 52 + (m - 2 ^ 52)))
+/-- a binary interchange format: `mbits` stored significand bits, `ebits` exponent bits -/
+structure Fmt where
+  mbits : Nat
+  ebits : Nat
+deriving Repr, DecidableEq
+
+def b64 : Fmt := ⟨52, 11⟩
+def b32 : Fmt := ⟨23, 8⟩
+
+namespace Fmt
+/-- exponent bias: 1023 / 127 -/
+def bias (F : Fmt) : Nat := 2 ^ (F.ebits - 1) - 1
+/-- every finite value is a multiple of `2^-qexp`: 1074 / 149 -/
+def qexp (F : Fmt) : Nat := F.bias - 1 + F.mbits
+/-- unsigned bit pattern of +∞ (exponent field all ones, significand 0); finite patterns are below -/
+def infBits (F : Fmt) : Nat := (2 ^ F.ebits - 1) * 2 ^ F.mbits
+/-- the sign bit -/
+def signBit (F : Fmt) : Nat := 2 ^ (F.mbits + F.ebits)
+end Fmt
+
+/-- magnitude, in units of `2^-qexp`, of the finite unsigned bit pattern `u` -/
+def magOfBits (F : Fmt) (u : Nat) : Nat :=
+  let E := u / 2 ^ F.mbits
+  let M := u % 2 ^ F.mbits
+  if E = 0 then M else (2 ^ F.mbits + M) * 2 ^ (E - 1)
+
+/-- Round-to-nearest-even of `a/b` (already expressed in units of `2^-qexp`, `b > 0`) to an unsigned
+    bit pattern. `k` is the binade's spacing exponent: `2^(mbits+k) ≤ a/b < 2^(mbits+k+1)` when
+    `k ≥ 1`, and `k = 0` through the subnormals and the first normal binade. The significand
+    `rne (a / (b·2^k))` lies in `[2^mbits, 2^(mbits+1)]` (or below `2^mbits` for subnormals), and adding
+    it to `k·2^mbits` yields the right pattern in every case, including the carry into the next
+    binade. A result `≥ infBits` means the rounded value is not finite (overflow). -/
+def roundMag (F : Fmt) (a b : Nat) : Nat :=
+  let k := Nat.log2 (a / b) - F.mbits
+  k * 2 ^ F.mbits + rne a (b * 2 ^ k)
+
+/-- signed rounding of `±num/den`: `none` on overflow -/
+def roundBits (F : Fmt) (neg : Bool) (num den : Nat) : Option Nat :=
+  let r := roundMag F (num * 2 ^ F.qexp) den
+  if r < F.infBits then some (if neg then F.signBit + r else r) else none
+
+/-- unit in the last place (in units of `2^-qexp`) of the finite unsigned pattern `u` -/
+def ulpOfBits (F : Fmt) (u : Nat) : Nat := 2 ^ (u / 2 ^ F.mbits - 1)
+
+/-! ## binary64 as `UInt64` -/
 
 namespace F64
-def inf (neg : Bool) : UInt64 := signBit neg ||| 0x7ff0000000000000
-def isNeg (b : UInt64) : Bool := b >>> 63 == 1
-def expField (b : UInt64) : Nat := ((b >>> 52) &&& 0x7ff).toNat
-def mantField (b : UInt64) : Nat := (b &&& 0xfffffffffffff).toNat
-def isFinite (b : UInt64) : Bool := expField b != 0x7ff
-def isInf (b : UInt64) : Bool := expField b == 0x7ff && mantField b == 0
-def isNaN (b : UInt64) : Bool := expField b == 0x7ff && mantField b != 0
-def isZero (b : UInt64) : Bool := expField b == 0 && mantField b == 0
-def neg (b : UInt64) : UInt64 := b ^^^ 0x8000000000000000
+def sign (b : UInt64) : Bool := b.toNat / 2 ^ 63 == 1
+def expField (b : UInt64) : Nat := b.toNat / 2 ^ 52 % 2 ^ 11
+def mantField (b : UInt64) : Nat := b.toNat % 2 ^ 52
+/-- the pattern without its sign bit -/
+def absBits (b : UInt64) : Nat := b.toNat % 2 ^ 63
+def isNaN (b : UInt64) : Bool := expField b == 2047 && mantField b != 0
+def isInf (b : UInt64) : Bool := expField b == 2047 && mantField b == 0
+def isFinite (b : UInt64) : Bool := expField b != 2047
 
-/-- magnitude of a finite value as num/den -/
-def toRat (b : UInt64) : Nat × Nat :=
-  let e := expField b
-  let m := mantField b
-  if e == 0 then (m, 2 ^ 1074)
+def posInf : UInt64 := 0x7ff0000000000000
+def negInf : UInt64 := 0xfff0000000000000
+def nan : UInt64 := 0x7ff8000000000000
+def inf (neg : Bool) : UInt64 := if neg then negInf else posInf
+def zero (neg : Bool) : UInt64 := if neg then 0x8000000000000000 else 0
+
+/-- `(m, e)` with value `= m · 2^e` (sign in `m`; `±0 ↦ (0, -1074)`); `none` for NaN and ±∞ -/
+def toDyadic (b : UInt64) : Option (Int × Int) :=
+  if expField b = 2047 then none
   else
-    let mm := 2 ^ 52 + m
-    if e ≥ 1075 then (mm * 2 ^ (e - 1075), 1) else (mm, 2 ^ (1075 - e))
+    let m : Nat := if expField b = 0 then mantField b else 2 ^ 52 + mantField b
+    let e : Int := if expField b = 0 then -1074 else (expField b : Int) - 1075
+    some (if sign b then -(m : Int) else (m : Int), e)
 
-def ofNat (n : Nat) : UInt64 := (roundNE64 false n 1).getD (inf false)
-def ofU64 (n : Nat) : UInt64 := ofNat n
+/-- `|value| · 2^1074` as a natural (meaningful for finite patterns) -/
+def mag (b : UInt64) : Nat := magOfBits b64 (absBits b)
 
-/-- finite × finite, correctly rounded; overflow gives ±inf -/
-def mul (a b : UInt64) : UInt64 :=
-  let s := isNeg a != isNeg b
-  let (n1, d1) := toRat a
-  let (n2, d2) := toRat b
-  (roundNE64 s (n1 * n2) (d1 * d2)).getD (inf s)
+/-- `f == 0.0` -/
+def isZero (b : UInt64) : Bool := absBits b == 0
 
-/-- finite / finite non-zero, correctly rounded; overflow gives ±inf -/
-def div (a b : UInt64) : UInt64 :=
-  let s := isNeg a != isNeg b
-  let (n1, d1) := toRat a
-  let (n2, d2) := toRat b
-  (roundNE64 s (n1 * d2) (d1 * n2)).getD (inf s)
+/-- flip the sign bit (adding `2^63` modulo `2^64` is the same as xor-ing it) -/
+def neg (b : UInt64) : UInt64 := b + 0x8000000000000000
 end F64
+
+/-- IEEE-754 round-to-nearest-even of the rational `±num/den` (`den > 0`) to binary64; `none` when the
+    rounded result is not finite (`num/den ≥ 2^1024 − 2^970`); `num = 0` gives `±0` by sign -/
+def roundNE64 (neg : Bool) (num den : Nat) : Option UInt64 :=
+  (roundBits b64 neg num den).map UInt64.ofNat
+
+namespace F64
+/-- rounding that overflows to `±∞` (what the hardware operations do) -/
+def roundOrInf (neg : Bool) (num den : Nat) : UInt64 := (roundNE64 neg num den).getD (inf neg)
+
+/-- IEEE multiplication: exact product, rounded once -/
+def mul (a b : UInt64) : UInt64 :=
+  let s := sign a != sign b
+  if isNaN a || isNaN b then nan
+  else if isInf a || isInf b then
+    if isZero a || isZero b then nan else inf s
+  else roundOrInf s (mag a * mag b) (2 ^ 1074 * 2 ^ 1074)
+
+/-- IEEE division: exact quotient, rounded once -/
+def div (a b : UInt64) : UInt64 :=
+  let s := sign a != sign b
+  if isNaN a || isNaN b then nan
+  else if isInf a then (if isInf b then nan else inf s)
+  else if isInf b then zero s
+  else if isZero b then (if isZero a then nan else inf s)
+  else roundOrInf s (mag a) (mag b)
+
+/-- `n as f64` for an unsigned integer -/
+def ofU64 (n : Nat) : UInt64 := roundOrInf false n 1
+end F64
+
+/-! ## binary32 as `UInt32` -/
+
+namespace F32
+def sign (b : UInt32) : Bool := b.toNat / 2 ^ 31 == 1
+def expField (b : UInt32) : Nat := b.toNat / 2 ^ 23 % 2 ^ 8
+def mantField (b : UInt32) : Nat := b.toNat % 2 ^ 23
+def absBits (b : UInt32) : Nat := b.toNat % 2 ^ 31
+def isNaN (b : UInt32) : Bool := expField b == 255 && mantField b != 0
+def isInf (b : UInt32) : Bool := expField b == 255 && mantField b == 0
+def isFinite (b : UInt32) : Bool := expField b != 255
+def posInf : UInt32 := 0x7f800000
+def negInf : UInt32 := 0xff800000
+def nan : UInt32 := 0x7fc00000
+def inf (neg : Bool) : UInt32 := if neg then negInf else posInf
+
+def toDyadic (b : UInt32) : Option (Int × Int) :=
+  if expField b = 255 then none
+  else
+    let m : Nat := if expField b = 0 then mantField b else 2 ^ 23 + mantField b
+    let e : Int := if expField b = 0 then -149 else (expField b : Int) - 150
+    some (if sign b then -(m : Int) else (m : Int), e)
+
+/-- `|value| · 2^149` -/
+def mag (b : UInt32) : Nat := magOfBits b32 (absBits b)
+end F32
+
+def roundNE32 (neg : Bool) (num den : Nat) : Option UInt32 :=
+  (roundBits b32 neg num den).map UInt32.ofNat
+
+namespace F32
+def roundOrInf (neg : Bool) (num den : Nat) : UInt32 := (roundNE32 neg num den).getD (inf neg)
+/-- `n as f32` for an unsigned integer -/
+def ofU64 (n : Nat) : UInt32 := roundOrInf false n 1
+/-- flip the sign bit -/
+def neg (b : UInt32) : UInt32 := b + 0x80000000
+end F32
+
+/-- Rust `x as f32` for `x : f64`: one rounding to nearest-even, overflow to `±∞`, NaN stays NaN -/
+def F64.toF32 (bits : UInt64) : UInt32 :=
+  if F64.isNaN bits then (if F64.sign bits then 0xffc00000 else 0x7fc00000)
+  else if F64.isInf bits then F32.inf (F64.sign bits)
+  else F32.roundOrInf (F64.sign bits) (F64.mag bits) (2 ^ 1074)
+
+/-! ## The specification of rounding, in the standard's words
+
+`x = num/den ≥ 0`, sign `neg`. A finite double `f` has `toDyadic f = (m, e)` with `e ≥ -1074`;
+its distance from `±x` is compared after multiplying through by `den · 2^1074`. -/
+
+/-- `|value f| · 2^1074` read off the dyadic form -/
+def F64.scaled (f : UInt64) : Nat :=
+  match F64.toDyadic f with
+  | some (m, e) => m.natAbs * 2 ^ (e + 1074).toNat
+  | none => 0
+
+/-- `| |value f| − num/den | · den · 2^1074` -/
+def dist64 (num den : Nat) (f : UInt64) : Nat :=
+  ((F64.scaled f * den : Nat) - (num * 2 ^ 1074 : Nat) : Int).natAbs
+
+/-- `r` is *the* IEEE round-to-nearest-even image of `±num/den`: finite, carrying the sign, at least as
+    close as every other finite double, and with an even significand whenever another double is
+    equally close. -/
+def IsNearestEven64 (neg : Bool) (num den : Nat) (r : UInt64) : Prop :=
+  F64.isFinite r = true ∧ F64.sign r = neg ∧
+  (∀ f : UInt64, F64.isFinite f = true → dist64 num den r ≤ dist64 num den f) ∧
+  (∀ f : UInt64, F64.isFinite f = true → F64.scaled f ≠ F64.scaled r →
+      dist64 num den f = dist64 num den r → F64.mantField r % 2 = 0)
+
+/-- `num/den ≥ 2^1024 − 2^970`, the point from which round-to-nearest yields infinity -/
+def Overflows64 (num den : Nat) : Prop := (2 ^ 1024 - 2 ^ 970) * den ≤ num
+
+def F32.scaled (f : UInt32) : Nat :=
+  match F32.toDyadic f with
+  | some (m, e) => m.natAbs * 2 ^ (e + 149).toNat
+  | none => 0
+
+def dist32 (num den : Nat) (f : UInt32) : Nat :=
+  ((F32.scaled f * den : Nat) - (num * 2 ^ 149 : Nat) : Int).natAbs
+
+def IsNearestEven32 (neg : Bool) (num den : Nat) (r : UInt32) : Prop :=
+  F32.isFinite r = true ∧ F32.sign r = neg ∧
+  (∀ f : UInt32, F32.isFinite f = true → dist32 num den r ≤ dist32 num den f) ∧
+  (∀ f : UInt32, F32.isFinite f = true → F32.scaled f ≠ F32.scaled r →
+      dist32 num den f = dist32 num den r → F32.mantField r % 2 = 0)
+
+def Overflows32 (num den : Nat) : Prop := (2 ^ 128 - 2 ^ 103) * den ≤ num
+
+/-! ## Executable tolerance check (used by the driver on the implementation's output) -/
+
+/-- ulp (units of `2^-1074`) of the correctly rounded image of `num/den`; when that overflows, the ulp
+    of the largest finite double (`2^971`) -/
+def ulpOfExact64 (num den : Nat) : Nat :=
+  let r := roundMag b64 (num * 2 ^ 1074) den
+  if r < b64.infBits then ulpOfBits b64 r else 2 ^ 2045
+
+/-- `(| |value r| − num/den | · den · 2^1074,  ulp · den)`: the error of `r` is `fst / snd` ulps, where
+    the ulp is that of the correctly rounded value -/
+def ulpDist (num den : Nat) (r : UInt64) : Nat × Nat :=
+  (dist64 num den r, ulpOfExact64 num den * den)
+
+/-- `r` is finite, carries the sign `neg`, and `| |value r| − num/den | ≤ k · ulp(roundNE64 (num/den))` -/
+def withinUlps (k : Nat) (neg : Bool) (num den : Nat) (r : UInt64) : Bool :=
+  F64.isFinite r && (F64.sign r == neg) &&
+    decide ((ulpDist num den r).1 ≤ k * (ulpDist num den r).2)
 
 end SJ.Spec.Ieee
